@@ -1,8 +1,8 @@
 (** C03 - no silent conflation (statements only; proofs in Proofs/). *)
 From Coq Require Import List NArith String Bool Sorted.
 From V Require Import Base.Strings Base.Result Model.Registry Model.Settings Model.Subst
-  Model.TypePath Model.Derives Model.Generate Model.Equal Model.Shape Model.DedupSpec Proofs.GenProofs
-  Proofs.FidelityBase Proofs.Fidelity Proofs.FidelityGen Proofs.KeepFirst Proofs.DedupGroups.
+  Model.TypePath Model.Derives Model.Generate Model.Equal Model.Shape Model.DedupSpec Model.EqualPlain Proofs.GenProofs
+  Proofs.FidelityBase Proofs.Fidelity Proofs.FidelityGen Proofs.KeepFirst Proofs.DedupGroups Proofs.EqualSound.
 Import ListNotations.
 
 (** structure of the loop, any registry, any comparison function: when nothing else fails
@@ -104,3 +104,94 @@ Theorem C03_dedup_member :
     exists gs g, In (p, gs) m /\ In g gs /\ In i g.
 Proof. exact dedup_member. Qed.
 Print Assumptions C03_dedup_member.
+
+(** *** soundness of [types_equal], partial.
+
+    FULL statement (refuted below): [types_equal_res r a b = Ok true] implies that [a] and [b]
+    denote the same type: equal registry shapes at every depth and, for generic definitions,
+    equal skeletons.
+
+    PROVED: the class where the algorithm is plain structural recursion.  [types_equal_plain]
+    (Model/EqualPlain.v) is [types_equal] without the [GenericsList] and with the two
+    visited-set shortcuts replaced by a marker outcome: it answers [Ok v] exactly when, during
+    the comparison, neither side reaches an id a second time and no type met has a non-skipped
+    type parameter (otherwise [Panic "revisit"] / [Panic "type parameter in scope"]); this is
+    decidable by running it (two versions of a non-generic crate, assoc-type variants with
+    skipped parameters).  On that class it agrees with [types_equal] and [true] implies equal
+    registry shapes at every depth, for every settings value, up to [shape_core]: the Box flag
+    of a field (read off the recorded type name) and the variant indices are forgotten --
+    [types_equal] never compares them (C03_equal_sound_refuted_boxed / _variant_index: the
+    conclusion cannot be strengthened to full shape equality even inside the class).
+    MISSING for the full statement: generics in scope, shared or recursive ids -- exactly
+    where the refutations live -- and the skeleton half of the conclusion. *)
+Theorem C03_equal_plain_agrees :
+  forall r a b v, types_equal_plain r a b = Ok v -> types_equal_res r a b = Ok v.
+Proof. exact types_equal_plain_agrees. Qed.
+Print Assumptions C03_equal_plain_agrees.
+
+Theorem C03_equal_sound_partial :
+  forall r a b,
+    types_equal_plain r a b = Ok true ->
+    forall s n, shape_core (shape_reg r s n a) = shape_core (shape_reg r s n b).
+Proof. exact types_equal_plain_sound. Qed.
+Print Assumptions C03_equal_sound_partial.
+
+(** the same with the verdict of [types_equal] itself as hypothesis *)
+Theorem C03_equal_sound_on_plain_class_partial :
+  forall r a b,
+    (exists v, types_equal_plain r a b = Ok v) -> types_equal_res r a b = Ok true ->
+    forall s n, shape_core (shape_reg r s n a) = shape_core (shape_reg r s n b).
+Proof. exact types_equal_sound_partial. Qed.
+Print Assumptions C03_equal_sound_on_plain_class_partial.
+
+(** refutations of the unrestricted statement on the faithful model (findings F1, F3, F3b);
+    witnesses: corpus/families/F03_same_id_coincidence.json, F14_nested_generic_explains.json
+    (transcribed in Model/EqualPlain.v) and a hand-made registry without any generics.
+    - same-id shortcut under different parameter bindings: Header<u8, u16> and Header<u8, i64>
+      share their field ids; the registry shapes coincide, the generic definitions recovered
+      from the two (skeletons) do not (U is used by the first, unused by the second); *)
+Theorem C03_equal_sound_refuted_same_id :
+  exists r s a b ta tb,
+    resolve r a = Some ta /\ resolve r b = Some tb /\
+    types_equal_res r a b = Ok true /\
+    shape_reg r s 4 a = shape_reg r s 4 b /\
+    skeleton r s ta <> skeleton r s tb.
+Proof. exact equal_sound_refuted_same_id. Qed.
+Print Assumptions C03_equal_sound_refuted_same_id.
+
+(** - a difference inside a nested generic type (Option<i32> against Option<u8>) is "explained"
+      by that type's own parameter: the depth-3 shapes differ; *)
+Theorem C03_equal_sound_refuted_nested_generic :
+  exists r s a b,
+    types_equal_res r a b = Ok true /\
+    shape_core (shape_reg r s 3 a) <> shape_core (shape_reg r s 3 b).
+Proof. exact equal_sound_refuted_nested_generic. Qed.
+Print Assumptions C03_equal_sound_refuted_nested_generic.
+
+(** - both-visited shortcut, no type parameter anywhere in the registry:
+      Foo { x: X, y: Y, z: X } against Foo { x: X', y: Y', z: Y' }. *)
+Theorem C03_equal_sound_refuted_revisit :
+  exists r s a b,
+    (forall e, In e r -> param_ids (snd e) = []) /\
+    types_equal_res r a b = Ok true /\
+    shape_core (shape_reg r s 3 a) <> shape_core (shape_reg r s 3 b).
+Proof. exact equal_sound_refuted_revisit. Qed.
+Print Assumptions C03_equal_sound_refuted_revisit.
+
+(** why the conclusion of C03_equal_sound_partial is up to [shape_core]: INSIDE the plain class
+    the variant indices are never compared (E { A = 0, B(u8) = 1 } against E { A = 1, B(u8) = 0 },
+    different on the wire) and neither are recorded type names (S { x: Box<u8> } against
+    S { x: u8 }, same on the wire, different Rust type) *)
+Theorem C03_equal_sound_refuted_variant_index :
+  exists r s a b,
+    types_equal_plain r a b = Ok true /\ types_equal_res r a b = Ok true /\
+    shape_reg r s 2 a <> shape_reg r s 2 b.
+Proof. exact equal_sound_refuted_variant_index. Qed.
+Print Assumptions C03_equal_sound_refuted_variant_index.
+
+Theorem C03_equal_sound_refuted_boxed :
+  exists r s a b,
+    types_equal_plain r a b = Ok true /\ types_equal_res r a b = Ok true /\
+    shape_reg r s 2 a <> shape_reg r s 2 b.
+Proof. exact equal_sound_refuted_boxed. Qed.
+Print Assumptions C03_equal_sound_refuted_boxed.
